@@ -1236,6 +1236,10 @@ class EditFaults:
             "seam completeness: an audit hook must find every mutating OS "
             "event of a fault-free run accounted for by the shim (else exit 2)",
         ]
+        self.nontrivial_rule = (
+            "an execution is non-trivial if at least one fault was injected "
+            "(the fault-free run of each (metafile, request) pair is the "
+            "trivial baseline); counted = distinct non-trivial fault vectors")
         self.rule = (
             "for each (metafile, request): E2 explores every choice vector "
             "with <= bound injected faults over the filesystem operations the "
@@ -1352,6 +1356,8 @@ class EditFaults:
             res.transitions += 1
             res.evals += 1
             res.states += 1
+            if run.deviations():
+                res.extra["nontrivial"] += 1
             vec = e2.vector(run)
             case = {"base": g["base"], "req": g["req"], "route": g["route"],
                     "seed": seed, "ks": write_ks,
